@@ -34,29 +34,42 @@ import (
 
 type fakeRepo struct{}
 
-func (fakeRepo) GetIdentifier() string                                { return "simrepo" }
-func (fakeRepo) GetCloneDir() string                                  { return "/nonexistent/simrepo" }
-func (fakeRepo) ResolveTaskClassIdentifier(s string) string           { return "simrepo/tasks/" + s + "@rev" }
-func (fakeRepo) ResolveSubworkflowTemplateIdentifier(s string) string { return "simrepo/workflows/" + s }
-func (fakeRepo) GetProtocol() string                                  { return "local" }
-func (fakeRepo) GetHash() string                                      { return "rev" }
-func (fakeRepo) GetRevisions() []string                               { return []string{"rev"} }
-func (fakeRepo) GetDefaultRevision() string                           { return "rev" }
-func (fakeRepo) IsDefault() bool                                      { return true }
-func (fakeRepo) GetTaskTemplatePath(s string) string                  { return s }
-func (fakeRepo) GetDplCommand(string) (string, error)                 { return "", errors.New("no dpl") }
+func (fakeRepo) GetIdentifier() string                      { return "simrepo" }
+func (fakeRepo) GetCloneDir() string                        { return "/nonexistent/simrepo" }
+func (fakeRepo) ResolveTaskClassIdentifier(s string) string { return "simrepo/tasks/" + s + "@rev" }
+func (fakeRepo) ResolveSubworkflowTemplateIdentifier(s string) string {
+	return "simrepo/workflows/" + s
+}
+func (fakeRepo) GetProtocol() string                  { return "local" }
+func (fakeRepo) GetHash() string                      { return "rev" }
+func (fakeRepo) GetRevisions() []string               { return []string{"rev"} }
+func (fakeRepo) GetDefaultRevision() string           { return "rev" }
+func (fakeRepo) IsDefault() bool                      { return true }
+func (fakeRepo) GetTaskTemplatePath(s string) string  { return s }
+func (fakeRepo) GetDplCommand(string) (string, error) { return "", errors.New("no dpl") }
 
 var _ repos.IRepo = fakeRepo{}
 
 type node struct {
-	Kind    string  `json:"kind"` // agg, task, call
-	Name    string  `json:"name"`
-	Enabled string  `json:"enabled,omitempty"` // "", "false", "flag:<f>", "it:<var>" (false for element x1)
-	List    string  `json:"for_list,omitempty"` // iterated over this list variable
-	Var     string  `json:"for_var,omitempty"`
-	HasVar  bool    `json:"has_var,omitempty"` // defines a var referring to the root default `base`
-	Broken  bool    `json:"broken,omitempty"`
-	Kids    []*node `json:"kids,omitempty"`
+	Kind    string `json:"kind"` // agg, task, call
+	Name    string `json:"name"`
+	Enabled string `json:"enabled,omitempty"`  // "", "false", "flag:<f>", "it:<var>" (false for element x1)
+	List    string `json:"for_list,omitempty"` // iterated over this list variable
+	Var     string `json:"for_var,omitempty"`
+	HasVar  bool   `json:"has_var,omitempty"` // defines a var referring to the root default `base`
+	Broken  bool   `json:"broken,omitempty"`
+	// BrokenRef: the error is a reference to a variable that is not visible to this role, written
+	// with the very text another role (DefinesLv) uses validly
+	BrokenRef bool `json:"broken_undefined_reference,omitempty"`
+	DefinesLv bool `json:"defines_lv,omitempty"`
+	UsesLv    bool `json:"uses_lv,omitempty"` // valid use: an ancestor defines it
+	// ListDep: the range of this (nested) iterator depends on an outer iteration variable:
+	// la when that variable is x0, lb otherwise
+	ListDep string `json:"range_depends_on,omitempty"`
+	// BrokenFor: a run-time template error (index out of range) for the element x1 of this
+	// iteration variable only
+	BrokenFor string  `json:"broken_for_x1_of,omitempty"`
+	Kids      []*node `json:"kids,omitempty"`
 }
 
 type scenario struct {
@@ -70,10 +83,11 @@ type scenario struct {
 }
 
 type gen struct {
-	c        *hk.Ctx
-	n        int
-	sc       *scenario
-	canBreak bool
+	c         *hk.Ctx
+	n         int
+	sc        *scenario
+	canBreak  bool
+	brokenRef bool
 }
 
 func (g *gen) mk(depth int, iterVars []string) *node {
@@ -88,6 +102,9 @@ func (g *gen) mk(depth int, iterVars []string) *node {
 	nd := &node{Kind: kind, Name: fmt.Sprintf("r%d", g.n)}
 	if kind != "call" && c.W(3, "iterate") == 2 {
 		nd.List, nd.Var = []string{"la", "lb"}[c.W(2, "list")], fmt.Sprintf("it%d", g.n)
+		if len(iterVars) > 0 && c.W(3, "dependent-range") == 2 {
+			nd.ListDep = iterVars[c.W(len(iterVars), "depends-on")]
+		}
 		iterVars = append(append([]string(nil), iterVars...), nd.Var)
 	}
 	switch c.W(7, "enabled") {
@@ -107,6 +124,13 @@ func (g *gen) mk(depth int, iterVars []string) *node {
 	nd.HasVar = kind != "call" && c.W(3, "vars") == 2
 	if kind != "call" && g.canBreak && c.F(20, "break-here") == 19 {
 		nd.Broken, g.canBreak = true, false
+		switch how := c.F(3, "broken-how"); {
+		case how == 1:
+			nd.BrokenRef = true
+			g.brokenRef = true
+		case how == 2 && len(iterVars) > 0:
+			nd.BrokenFor = iterVars[c.W(len(iterVars), "broken-for-var")]
+		}
 	}
 	if kind == "agg" {
 		k := 1 + c.W(3, "fanout")
@@ -124,7 +148,9 @@ func yamlNode(b *strings.Builder, nd *node, ind string) {
 	}
 	fmt.Fprintf(b, "%s- name: \"%s\"\n", ind, name)
 	in := ind + "  "
-	if nd.List != "" {
+	if nd.List != "" && nd.ListDep != "" {
+		fmt.Fprintf(b, "%sfor:\n%s  range: \"{{ %s == 'x0' ? la : lb }}\"\n%s  var: %s\n", in, in, nd.ListDep, in, nd.Var)
+	} else if nd.List != "" {
 		fmt.Fprintf(b, "%sfor:\n%s  range: \"{{ %s }}\"\n%s  var: %s\n", in, in, nd.List, in, nd.Var)
 	}
 	switch {
@@ -138,12 +164,22 @@ func yamlNode(b *strings.Builder, nd *node, ind string) {
 		v := strings.TrimPrefix(nd.Enabled, "it2:")
 		fmt.Fprintf(b, "%senabled: \"{{ %s != 'x1' && %s != 'x2' }}\"\n", in, v, v)
 	}
-	if nd.HasVar || nd.Broken {
+	if nd.HasVar || nd.Broken || nd.DefinesLv || nd.UsesLv {
 		fmt.Fprintf(b, "%svars:\n", in)
 		if nd.HasVar {
 			fmt.Fprintf(b, "%s  v_%s: \"p-{{ base }}\"\n", in, nd.Name)
 		}
-		if nd.Broken {
+		if nd.DefinesLv {
+			fmt.Fprintf(b, "%s  lv: \"a\"\n", in)
+		}
+		if nd.UsesLv {
+			fmt.Fprintf(b, "%s  u: \"q-{{ lv }}\"\n", in)
+		}
+		if nd.Broken && nd.BrokenFor != "" {
+			fmt.Fprintf(b, "%s  e: \"{{ FromJson(lc)[ %s == 'x1' ? 99 : 0 ] }}\"\n", in, nd.BrokenFor) // fails at run time for x1 only
+		} else if nd.Broken && nd.BrokenRef {
+			fmt.Fprintf(b, "%s  u: \"q-{{ lv }}\"\n", in) // lv is not defined for this role
+		} else if nd.Broken {
 			fmt.Fprintf(b, "%s  broken: \"{{ 1 + }}\"\n", in)
 		}
 	}
@@ -162,7 +198,7 @@ func yamlNode(b *strings.Builder, nd *node, ind string) {
 
 // reference expansion, written from the property statement
 type refResult struct {
-	paths     []string // DFS order
+	paths      []string // DFS order
 	errReached bool
 }
 
@@ -170,6 +206,12 @@ func (sc *scenario) expand(nd *node, prefix string, bind map[string]string, out 
 	elems := []string{""}
 	if nd.List != "" {
 		elems = sc.Lists[nd.List]
+		if nd.ListDep != "" {
+			elems = sc.Lists["lb"]
+			if bind[nd.ListDep] == "x0" {
+				elems = sc.Lists["la"]
+			}
+		}
 	}
 	any := false
 	for _, e := range elems {
@@ -198,7 +240,7 @@ func (sc *scenario) expand(nd *node, prefix string, bind map[string]string, out 
 		if !enabled {
 			continue
 		}
-		if nd.Broken {
+		if nd.Broken && (nd.BrokenFor == "" || b[nd.BrokenFor] == "x1") {
 			out.errReached = true
 		}
 		path := prefix + "." + name
@@ -277,7 +319,7 @@ func load(c *hk.Ctx, yamlDoc string, a, b, d bool) *loaded {
 	viper.Set("concurrentWorkflowTemplateProcessing", a)
 	viper.Set("concurrentWorkflowTemplateIteratorProcessing", b)
 	viper.Set("concurrentIteratorRoleExpansion", d)
-	envId := uid.New()
+	envId := uid.ID("2rE9AV3m1HL") // a fixed id: the process-wide generator keeps state across runs
 	pa := workflow.NewParentAdapter(
 		func() uid.ID { return envId }, func() uint32 { return 0 },
 		func() gera.Map[string, string] { return gera.MakeMap[string, string]() },
@@ -322,6 +364,10 @@ func body(c *hk.Ctx) {
 	for i := 0; i < nTop; i++ {
 		sc.Tree = append(sc.Tree, g.mk(1, nil))
 	}
+	if g.brokenRef {
+		// the role that uses the same expression text validly comes first
+		sc.Tree = append([]*node{{Kind: "agg", Name: "r0def", DefinesLv: true, Kids: []*node{{Kind: "task", Name: "r0use", UsesLv: true}}}}, sc.Tree...)
+	}
 	jsonList := func(l []string) string {
 		if len(l) == 0 {
 			return "[]"
@@ -329,7 +375,7 @@ func body(c *hk.Ctx) {
 		return `["` + strings.Join(l, `","`) + `"]`
 	}
 	var b strings.Builder
-	fmt.Fprintf(&b, "name: wfl\ndefaults:\n  fa: \"%s\"\n  fb: \"%s\"\n  base: \"b0\"\n  la: '%s'\n  lb: '%s'\nroles:\n", sc.Flags["fa"], sc.Flags["fb"], jsonList(sc.Lists["la"]), jsonList(sc.Lists["lb"]))
+	fmt.Fprintf(&b, "name: wfl\ndefaults:\n  fa: \"%s\"\n  fb: \"%s\"\n  base: \"b0\"\n  la: '%s'\n  lb: '%s'\n  lc: '[\"c0\"]'\nroles:\n", sc.Flags["fa"], sc.Flags["fb"], jsonList(sc.Lists["la"]), jsonList(sc.Lists["lb"]))
 	for _, nd := range sc.Tree {
 		yamlNode(&b, nd, "  ")
 	}
